@@ -51,8 +51,14 @@ func vh_C13_env() {
 	}
 	fixStdlib(i)
 	p := i.binPkg["os"]
-	key := vNondetWordN("key", vhEnvChars, 0, 4)
+	key := vNondetWordN("key", "abcXYZ_", 1, 4)
 	val := vNondetWordN("val", vhEnvChars, 0, 4)
+	hostBefore, hostSet := "", false
+	if !vSymbolic() && key != "" && !strings.Contains(key, "=") {
+		// give the host a value under the same key, to see whether the script reaches it
+		os.Setenv(key, "host-value")
+		hostBefore, hostSet = os.LookupEnv(key)
+	}
 	vReach("C13.env")
 	switch vhEnvOp {
 	case 0:
@@ -100,18 +106,21 @@ func vh_C13_env() {
 	// and the host environment was neither read nor written
 	vAssert("C13.env.noninterference", vEventCount("opaque:os.") == 0 && vEventCount("opaque:syscall.") == 0)
 	if !vSymbolic() {
-		vAssert("C13.env.noninterference", os.Getenv("VERIF_C13_SENTINEL") == "host" && os.Getenv(key) == vhHostBefore(key))
+		hostAfter, hostStill := os.LookupEnv(key)
+		vAssert("C13.env.noninterference", os.Getenv("VERIF_C13_SENTINEL") == "host" && hostAfter == hostBefore && hostStill == hostSet)
+		if hostSet {
+			os.Unsetenv(key)
+		}
 	}
 }
 
-func vhHostBefore(key string) string { return os.Getenv(key) }
 
 // fmt.Print*/Scan* use the interpreter's streams
 func vh_C13_io() {
 	vhResetClock()
 	i, _ := vhRestricted()
 	var out, errw bytes.Buffer
-	in := strings.NewReader("42\n")
+	in := strings.NewReader("42\n43\n44\n")
 	i.stdout, i.stderr, i.stdin = &out, &errw, in
 	fixStdlib(i)
 	p := i.binPkg["fmt"]
@@ -123,18 +132,20 @@ func vh_C13_io() {
 	vAssert("C13.io.Printf", vEventArgIs("opaque:fmt.Fprintf", 0, i.stdout))
 	p["Println"].Interface().(func(...interface{}) (int, error))(msg)
 	vAssert("C13.io.Println", vEventArgIs("opaque:fmt.Fprintln", 0, i.stdout))
-	var x int
+	var x, y, z int
 	p["Scan"].Interface().(func(...interface{}) (int, error))(&x)
 	vAssert("C13.io.Scan", vEventArgIs("opaque:fmt.Fscan", 0, i.stdin))
-	p["Scanf"].Interface().(func(string, ...interface{}) (int, error))("%d", &x)
+	p["Scanf"].Interface().(func(string, ...interface{}) (int, error))("%d\n", &y)
 	vAssert("C13.io.Scanf", vEventArgIs("opaque:fmt.Fscanf", 0, i.stdin))
-	p["Scanln"].Interface().(func(...interface{}) (int, error))(&x)
+	p["Scanln"].Interface().(func(...interface{}) (int, error))(&z)
 	vAssert("C13.io.Scanln", vEventArgIs("opaque:fmt.Fscanln", 0, i.stdin))
 	// host streams never used directly
 	vAssert("C13.io.no-host-stream", vEventCount("opaque:fmt.Print") == 0 && vEventCount("opaque:fmt.Scan") == 0)
 	if !vSymbolic() {
 		vAssert("C13.io.Print", out.String() == msg+msg+msg+"\n" && errw.Len() == 0)
 		vAssert("C13.io.Scan", x == 42)
+		vAssert("C13.io.Scanf", y == 43)
+		vAssert("C13.io.Scanln", z == 44)
 	}
 }
 
